@@ -97,6 +97,13 @@ func c18IsHTML(rr http.Header, body []byte) bool {
 	return strings.HasPrefix(ct, "text/html") || strings.HasPrefix(ct, "application/xhtml") || strings.HasPrefix(ct, "image/svg")
 }
 
+func c18Truncate(s string, n int) string {
+	if len(s) > n {
+		return s[:n] + "…"
+	}
+	return s
+}
+
 func c18CtypeClass(rr http.Header) int {
 	ct := strings.ToLower(strings.TrimSpace(rr.Get("Content-Type")))
 	switch {
@@ -686,16 +693,65 @@ func TestVerif_C18(t *testing.T) {
 		rr3, _ := env.serve(req3)
 		record(req3.URL.String(), rr3.Body.Bytes(), "authorize-login")
 	}
+	// ---- the failure response, construction by construction: writeFailureResponse called with request-
+	// controlled detail text, on the service and the admin port, for API and browser clients; the model's
+	// failure_response must give the same declared type, the same body bytes and the same "a browser renders
+	// it as a document" verdict
+	var fcases, fidx []string
+	for _, host := range []string{"keymaster.example", "keymaster.example:443", "keymaster.example:6920"} {
+		for _, accept := range []string{"", "application/json", "text/html", "text/html,application/xhtml+xml,*/*;q=0.8"} {
+			for _, code := range []int{400, 401, 403, 404, 405, 429, 500, 503} {
+				msgs := append([]string{"", "Not an admin user", "<html>", " <!DOCTYPE html><" + canary + ">"}, payloads[:6]...)
+				for _, msg := range msgs {
+					req := verifNewRequest("POST", "/x", url.Values{})
+					req.Host = host
+					if accept != "" {
+						req.Header.Set("Accept", accept)
+					}
+					req.ParseForm()
+					rr := httptest.NewRecorder()
+					env.state.writeFailureResponse(rr, req, code, msg)
+					body := rr.Body.Bytes()
+					doc := c18IsHTML(rr.Header(), body)
+					adminPort := strings.HasSuffix(host, ":6920")
+					acceptHTML := strings.Contains(accept, "text/html")
+					fcases = append(fcases, fmt.Sprintf("(%s, %s, %d, %s, %s, %d, %s, %s)", coqBool(adminPort), coqBool(acceptHTML), code,
+						coqPacked([]byte(http.StatusText(code))), coqPacked([]byte(msg)), c18CtypeClass(rr.Header()), coqPacked(body), coqBool(doc)))
+					fidx = append(fidx, fmt.Sprintf("writeFailureResponse host=%s accept=%q code=%d msg=%q -> Content-Type %q document=%v body=%q", host, accept, code, msg, rr.Header().Get("Content-Type"), doc, c18Truncate(string(body), 120)))
+					page := code == 401 && acceptHTML && !adminPort
+					res.eval(fmt.Sprintf("failure|%s|%s|%d|%s|%v", host, accept, code, msg, doc), strings.Contains(msg, canary))
+					res.bump("failure_responses")
+					if doc && !page {
+						res.bump("failure_lines_rendered_as_document")
+					}
+					if doc && bytes.Contains(body, []byte("<"+canary)) {
+						shape := "line"
+						if page {
+							shape = "page"
+						}
+						res.hit(verifHit{Key: "C18:failure-response:raw-detail-in-document:" + shape, Oracle: "a failure response that a browser renders as a document carries the detail text unescaped",
+							What: fmt.Sprintf("writeFailureResponse(%d, %q) for Host %s, Accept %q: Content-Type %q, body %q", code, msg, host, accept, rr.Header().Get("Content-Type"), c18Truncate(string(body), 160)),
+							Case: map[string]interface{}{"host": host, "accept": accept, "code": code, "message": msg}})
+					}
+				}
+			}
+		}
+	}
 	var sb strings.Builder
 	sb.WriteString(coqCaseHeader)
 	sb.WriteString("From KM Require Import Base.Cases Model.Html.\nOpen Scope N_scope.\n")
 	sb.WriteString("(* (output of ensureHTMLSafeLoginDestination, raw VALUE attribute text in the served page) *)\n")
 	sb.WriteString("Definition cases : list (bs * bs) := [\n " + strings.Join(cases, ";\n ") + "].\n")
 	sb.WriteString("Definition c18_mismatches := Eval vm_compute in mismatches (fun c : bs * bs => negb (bs_eqb (html_escape (fst c)) (snd c))) cases.\nPrint c18_mismatches.\nDefinition c18_ncases := Eval vm_compute in length cases.\nPrint c18_ncases.\n")
+	sb.WriteString("(* (admin port, Accept has text/html, status code, status text, detail, declared type 0 html 1 plain 2 absent 3 other, body, rendered as a document) *)\n")
+	sb.WriteString("Definition fcases : list (bool * bool * N * bs * bs * N * bs * bool) := [\n " + strings.Join(fcases, ";\n ") + "].\n")
+	sb.WriteString("Definition fbad (c : bool * bool * N * bs * bs * N * bs * bool) : bool :=\n  let '(admin, accept, code, status, msg, ct, body, doc) := c in\n  let r := failure_response admin accept code status msg [Trusted body] in\n  negb ((ct_code (r_ctype r) =? ct) && bs_eqb (render (r_body r)) body && Bool.eqb (rendered_as_document r) doc).\n")
+	sb.WriteString("Definition c18_failure_mismatches := Eval vm_compute in mismatches fbad fcases.\nPrint c18_failure_mismatches.\nDefinition c18_nfcases := Eval vm_compute in length fcases.\nPrint c18_nfcases.\n")
 	if err := ioutil.WriteFile(filepath.Join(verifOut(), "CasesC18.v"), []byte(sb.String()), 0644); err != nil {
 		t.Fatal(err)
 	}
 	ioutil.WriteFile(filepath.Join(verifOut(), "CasesC18.idx"), []byte(strings.Join(idx, "\n")), 0644)
+	ioutil.WriteFile(filepath.Join(verifOut(), "CasesC18f.idx"), []byte(strings.Join(fidx, "\n")), 0644)
 	if len(cases) == 0 {
 		res.hit(verifHit{Key: "C18:harness:no-input", Oracle: "harness", What: "no page with the hidden input was produced", Case: ""})
 	}
